@@ -59,6 +59,10 @@ func replaceConfigs() []engine.Config {
 			switch rel {
 			case ops.RelInPlace, ops.RelSame, ops.RelExisting, "append", "populated":
 				cc = append(cc, engine.Config{Op: n, Rel: rel})
+			case ops.RelPreexisting, ops.RelPartial:
+				if !o.NaturalFail {
+					cc = append(cc, engine.Config{Op: n, Rel: rel})
+				}
 			}
 		}
 	}
@@ -133,7 +137,13 @@ func crashOracle(cfg engine.Config, s0, s1, at simfs.Snap, ev simfs.Event, machi
 		e1, ok1 := s1[k]
 		if !ok {
 			if ok1 {
-				mk("destination-absent", kind, fmt.Sprintf("%s (%s) does not exist at this instant; before: %s, at the end: %s", k, kind, e0, e1))
+				where := "old-bytes-nowhere"
+				for q, eq := range at {
+					if eq.Type == "file" && eq.Sum == e0.Sum && (simfs.IsHidden(q) || simfs.HiddenAncestor(q)) {
+						where = "old-bytes-in-hidden-backup"
+					}
+				}
+				mk("destination-absent", kind+":"+where, fmt.Sprintf("%s (%s) does not exist at this instant (%s); before: %s, at the end: %s", k, kind, where, e0, e1))
 			}
 			continue
 		}
